@@ -23,6 +23,8 @@ CHECKS = {
          "deadline grid x clock stepping x reply/timer order x queueing on the real dispatch with a hooked virtual clock: never early, reply-before-deadline wins, resolved once D+1ms has passed", "5/C05", "mc"),
  "C06": ("model_checking", "stateless deviation-bounded DFS over deadline grid x virtual-clock steps x handler completion order x limit x blocked sink",
          "handlers are never aborted before their deadline; once a channel poll has run at >= D+1ms the handler makes no progress and nothing is sent for it; other requests untouched", "5/C06", "mc"),
+ "C07": ("exploration", "exhaustive grid over chain depth x transport assignment x remaining duration x transit delay x subscriber regime on real client/server hops with a hooked virtual clock (exact arithmetic)",
+         "handler-observed deadline == caller's deadline + transit exactly (serde hops) / == caller's Instant (in-memory), never earlier, never beyond accumulated transit, already-passed arrives as the receive instant, nested calls carry the handler's context, omitted deadline = +10s", "5/C07", "mc"),
  "C08": ("model_checking", "stateless deviation-bounded DFS over peer sequences (fresh/duplicate/reused ids, cancels, eof, channel drop) x completion orders",
          "one offer per request read unless its id is tracked; at most one response per request instance, only after its handler finished and before cancel/drop; every response matches a request read on the channel", "5/C08", "mc"),
  "C09": ("fault_enumeration", "exhaustive fault-plan enumeration over every transport call of every <=1-deviation base execution (one-shot, sticky, EOF), replayed on the real client dispatch and server channel",
